@@ -1229,7 +1229,7 @@ function resolve_join_variables(input_variables_map, join_variables_map, variabl
             throw new RbqlParsingError(get_ambiguous_error_msg(join_var_1));
         if (input_variables_map.hasOwnProperty(join_var_2) && join_variables_map.hasOwnProperty(join_var_2))
             throw new RbqlParsingError(get_ambiguous_error_msg(join_var_2));
-        if (input_variables_map.hasOwnProperty(join_var_2))
+        if (input_variables_map.hasOwnProperty(join_var_2) || ['NR', 'a.NR', 'aNR'].indexOf(join_var_2) != -1)
             [join_var_1, join_var_2] = [join_var_2, join_var_1];
 
         let [lhs_key_index, rhs_key_index] = [null, null];
